@@ -277,6 +277,18 @@ pub fn generate(seed: u64, tier: &str, sink: &mut Sink) {
         ];
         stalls.push(Stall { name, scripts, timeout: Some(t), read_timeout: 5000, body: 0, bound: t + margin, must_fail: true, https_via_proxy: false, redirects: true });
     }
+    // a tunnelled exchange (plain-tunnel hook: the TLS layer is left out) that takes longer than the CONNECT
+    // timeout allows a connection attempt, but neither stalls for the read timeout nor reaches T: it completes,
+    // and nothing is reported as timed out (seed C13-seed9: the connect timeout as a hidden deadline of the
+    // tunnel's connection). Phases whose name starts with `tunnel-slow` run with a connect timeout of 300 ms.
+    {
+        let agreed = b"HTTP/1.1 200 Connection established\r\n\r\n".to_vec();
+        let slow_body = vec![Srv::ReadRequest, Srv::Send(agreed.clone()), Srv::ReadRequest, Srv::Send(b"HTTP/1.1 200 OK\r\nContent-Length: 8\r\n\r\n".to_vec()), Srv::Drip(b"dripdrip".to_vec(), 100), Srv::Hold(100)];
+        stalls.push(Stall { name: "tunnel-slow-body-in-time", scripts: vec![slow_body.clone()], timeout: Some(5000), read_timeout: 2000, body: 0, bound: 2500, must_fail: false, https_via_proxy: true, redirects: false });
+        stalls.push(Stall { name: "tunnel-slow-body-no-T", scripts: vec![slow_body], timeout: None, read_timeout: 2000, body: 0, bound: 2500, must_fail: false, https_via_proxy: true, redirects: false });
+        let slow_head = vec![Srv::ReadRequest, Srv::Send(agreed), Srv::ReadRequest, Srv::Sleep(600), Srv::Send(b"HTTP/1.1 200 OK\r\nContent-Length: 2\r\n\r\nok".to_vec()), Srv::Hold(100)];
+        stalls.push(Stall { name: "tunnel-slow-head-in-time", scripts: vec![slow_head], timeout: Some(5000), read_timeout: 2000, body: 0, bound: 2500, must_fail: false, https_via_proxy: true, redirects: false });
+    }
     let reps = if thorough { 4 } else { 1 };
     let stalls = Arc::new(stalls);
     let results: Arc<Mutex<Vec<(usize, u64, String, bool)>>> = Arc::new(Mutex::new(vec![]));
@@ -288,7 +300,9 @@ pub fn generate(seed: u64, tier: &str, sink: &mut Sink) {
                 let st = &stalls[i];
                 let (port, _acc) = server(st.scripts.clone());
                 let url = if st.https_via_proxy { "https://origin.test/".to_string() } else { format!("http://127.0.0.1:{}/", port) };
-                let mut rb = attohttpc::post(&url).read_timeout(Duration::from_millis(st.read_timeout)).connect_timeout(Duration::from_millis(1000)).follow_redirects(st.redirects).max_redirections(10);
+                let slow_tunnel = st.name.starts_with("tunnel-slow");
+                attohttpc::verif_hooks::set_plain_tunnels(slow_tunnel);
+                let mut rb = attohttpc::post(&url).read_timeout(Duration::from_millis(st.read_timeout)).connect_timeout(Duration::from_millis(if slow_tunnel { 300 } else { 1000 })).follow_redirects(st.redirects).max_redirections(10);
                 if let Some(t) = st.timeout {
                     rb = rb.timeout(if t == 0 { Duration::from_micros(1) } else { Duration::from_millis(t) });
                 }
